@@ -236,6 +236,17 @@ func (p *Pkg) ImportPath(module string) string {
 	return module + "/" + p.Dir
 }
 
+// twinAlias is the import alias a source file uses for one of two same-named packages.
+func twinAlias(path string) string {
+	b := []byte("tw_" + strings.TrimPrefix(path, "example.com/w/"))
+	for i := range b {
+		if c := b[i]; !(c >= 'a' && c <= 'z' || c >= 'A' && c <= 'Z' || c >= '0' && c <= '9' || c == '_') {
+			b[i] = '_'
+		}
+	}
+	return string(b)
+}
+
 func renderFile(pkgName string, f SrcFile) string {
 	var b strings.Builder
 	if f.BuildTag != "" {
@@ -253,8 +264,9 @@ func renderFile(pkgName string, f SrcFile) string {
 			imps[fmt.Sprintf("%s %q", ifc.XRefQual, ifc.XRefPath)] = true
 		}
 		if ifc.Twin[0] != "" {
-			imps[fmt.Sprintf("tw0 %q", ifc.Twin[0])] = true
-			imps[fmt.Sprintf("tw1 %q", ifc.Twin[1])] = true
+			// one alias per path: two interfaces of a file may name the twins in either order
+			imps[fmt.Sprintf("%s %q", twinAlias(ifc.Twin[0]), ifc.Twin[0])] = true
+			imps[fmt.Sprintf("%s %q", twinAlias(ifc.Twin[1]), ifc.Twin[1])] = true
 		}
 	}
 	if len(imps) > 0 {
@@ -278,7 +290,7 @@ func renderFile(pkgName string, f SrcFile) string {
 			fmt.Fprintf(&b, "\tUse(x %s.Thing) error\n", ifc.XRefQual)
 		}
 		if ifc.Twin[0] != "" {
-			b.WriteString("\tPair(m map[tw0.Thing]tw1.Thing) (tw1.Thing, error)\n")
+			fmt.Fprintf(&b, "\tPair(m map[%s.Thing]%s.Thing) (%s.Thing, error)\n", twinAlias(ifc.Twin[0]), twinAlias(ifc.Twin[1]), twinAlias(ifc.Twin[1]))
 		}
 		b.WriteString("}\n\n")
 	}
